@@ -18,12 +18,12 @@ LEVEL = "proof"
 EXTRA_TARGETS = ["MG.DriverEng"]
 THEOREMS = {
     "MG.Proofs.C07": [
-        "MG.C07.clearGraph_clears_upstream",
+        "MG.C07.clearGraph_shrinks",
+        "MG.C07.clearGraph_clears_root",
+        "MG.C07.clearGraph_clears_inputs",
         "MG.C07.backward_clears_graph",
         "MG.C07.cleared_tensor_holds_no_strong_edge",
-        "MG.C07.nonview_op_nulls_input_grads",
-        "MG.C07.backward_resets_visited_grads",
-    ]
+    ],
 }
 
 GEN = dict(inplace=True, p_inplace=0.25, p_view=0.3, p_fail=0.0, p_const=0.1, n_stmts=9)
